@@ -613,6 +613,16 @@ func (a *c17API) checkEncResult(t *rapid.T, where string, it c17EncItem, ct stri
 			if !same && x.text == ct {
 				a.viol(t, "convergent-collision", "%s: different inputs gave the same ciphertext %s", where, verifx.Trunc(ct, 40))
 			}
+			ns := 12
+			if a.kind.name == "xchacha20-poly1305" {
+				ns = 24
+			}
+			_, xbody, _ := c17Split(x.text)
+			xraw, _ := base64.StdEncoding.DecodeString(xbody)
+			raw, _ := base64.StdEncoding.DecodeString(body)
+			if x.ver == want && !(bytes.Equal(x.ctx, it.ctx) && bytes.Equal(x.pt, it.pt)) && len(xraw) >= ns && len(raw) >= ns && bytes.Equal(xraw[:ns], raw[:ns]) {
+				a.viol(t, "convergent-nonce-reuse", "%s: version %d: the same nonce %x was derived for different (context, plaintext): ctx %x/%x", where, want, raw[:ns], x.ctx, it.ctx)
+			}
 		} else if x.text == ct {
 			a.viol(t, "ciphertext-repeated", "%s: randomised encryption returned a ciphertext seen before", where)
 		}
